@@ -3,7 +3,8 @@
 import json, os, sys, subprocess
 ROOT = os.path.dirname(os.path.dirname(os.path.abspath(__file__)))
 sys.path.insert(0, os.path.join(ROOT, "lib"))
-import registry
+import importlib
+sys.path.insert(0, os.path.join(ROOT, "checks"))
 
 props = [json.loads(l) for l in open(os.path.join(ROOT, "properties.jsonl"))]
 ids = [p["id"] for p in props]
@@ -17,8 +18,10 @@ except Exception:
 checks = []
 na = []
 for pid in ids:
-    c = registry.CHECKS.get(pid)
-    if c and os.path.exists(os.path.join(ROOT, "checks", pid + ".py")):
+    c = None
+    if os.path.exists(os.path.join(ROOT, "checks", pid + ".py")):
+        c = getattr(importlib.import_module(pid), "META", None)
+    if c:
         checks.append({
             "property_id": pid,
             "quick_cmd": "./check %s --tier quick" % pid,
@@ -33,7 +36,7 @@ for pid in ids:
         })
     else:
         na.append({"property_id": pid,
-                   "reason": registry.PENDING.get(pid, "check not built yet in this round (planned in DESIGN.md §7/%s); not claimed" % pid)})
+                   "reason": "check not built yet (planned in DESIGN.md §7/%s); not claimed" % pid})
 
 m = {
     "version": 1,
